@@ -40,10 +40,11 @@ LinAlgReasons(r) ==
     [] f = "contents" -> Res(r, Contents(r.a))
     [] f = "eq" -> Pre(SameDim(r.a, r.b)) \cup Res(r, r.a = r.b)
     [] f = "ne" -> Pre(SameDim(r.a, r.b)) \cup Res(r, r.a # r.b)
+    [] f = "at_set" -> Pre(r.i >= 0 /\ r.i < Len(r.a)) \cup Res(r, SetAt(r.a, r.i + 1, r.x))
     [] f = "lt" -> Pre(SameDim(r.a, r.b)) \cup Res(r, Less(r.a, r.b))
-    [] f = "gt" -> Pre(SameDim(r.a, r.b)) \cup Res(r, Less(r.b, r.a))
-    [] f = "le" -> Pre(SameDim(r.a, r.b)) \cup Res(r, ~Less(r.b, r.a))
-    [] f = "ge" -> Pre(SameDim(r.a, r.b)) \cup Res(r, ~Less(r.a, r.b))
+    [] f = "gt" -> Pre(SameDim(r.a, r.b)) \cup Res(r, Gt(r.a, r.b))
+    [] f = "le" -> Pre(SameDim(r.a, r.b)) \cup Res(r, Le(r.a, r.b))
+    [] f = "ge" -> Pre(SameDim(r.a, r.b)) \cup Res(r, Ge(r.a, r.b))
     [] f = "bit_strings" -> Res(r, BitStrings(r.n))
   (* matrices *)
     [] f = "madd" -> Pre(IsMat(r.a) /\ IsMat(r.b) /\ SameShape(r.a, r.b)) \cup Res(r, MAdd(r.a, r.b))
@@ -57,6 +58,8 @@ LinAlgReasons(r) ==
     [] f = "determinant" -> Pre(IsMat(r.a) /\ Rows(r.a) = Cols(r.a)) \cup Res(r, Det(r.a))
     [] f = "adjugate" -> Pre(IsMat(r.a) /\ Rows(r.a) = Cols(r.a) /\ Rows(r.a) >= 2) \cup Res(r, Adj(r.a))
     [] f = "identity" -> Res(r, Identity(r.n))
+    [] f = "minit" -> Pre(r.rows >= 1 /\ r.cols >= 1) \cup
+                      Res(r, MInit(r.rows, r.cols, LAMBDA i, j : r.c0 + r.c1 * (i - 1) + r.c2 * (j - 1)))   \* 0-based row / column
     [] f = "translation" -> Res(r, Translation(r.x, r.y, r.z))
     [] f = "scaling" -> Res(r, Scaling(r.x, r.y, r.z))
     [] f = "transform_point" -> Res(r, TransformPoint(r.a, r.v))
@@ -64,6 +67,8 @@ LinAlgReasons(r) ==
     [] f = "row" -> Pre(IsMat(r.a) /\ r.i >= 0 /\ r.i < Rows(r.a)) \cup Res(r, Row(r.a, r.i + 1))
     [] f = "mat_at" -> Pre(IsMat(r.a) /\ r.i >= 0 /\ r.i < Rows(r.a) /\ r.j >= 0 /\ r.j < Cols(r.a))
                         \cup Res(r, At(r.a, r.i + 1, r.j + 1))
+    [] f = "mat_at_set" -> Pre(IsMat(r.a) /\ r.i >= 0 /\ r.i < Rows(r.a) /\ r.j >= 0 /\ r.j < Cols(r.a))
+                            \cup Res(r, MSetAt(r.a, r.i + 1, r.j + 1, r.x))
     [] f = "delete_row_and_column" ->
          Pre(IsMat(r.a) /\ Rows(r.a) >= 2 /\ Cols(r.a) >= 2 /\ r.i >= 0 /\ r.i < Rows(r.a) /\ r.j >= 0 /\ r.j < Cols(r.a))
            \cup Res(r, DeleteRowAndColumn(r.a, r.i + 1, r.j + 1))
@@ -81,16 +86,20 @@ LinAlgReasons(r) ==
     [] f = "infinity_norm" -> Pre(IsMat(r.a)) \cup Res(r, InfinityNorm(r.a))
     [] f \in {"assign", "massign"} -> Res(r, r.b)             \* a = b: afterwards a holds b's values
     [] f = "row_assign" ->                                     \* row i of the matrix := v, other rows untouched
-         Pre(IsMat(r.a) /\ r.i >= 0 /\ r.i < Rows(r.a) /\ Len(r.v) = Cols(r.a)) \cup Res(r, [r.a EXCEPT ![r.i + 1] = r.v])
-    [] f = "row_op" ->                                         \* row i (op)= row j of the same matrix
-         Pre(IsMat(r.a) /\ r.i >= 0 /\ r.i < Rows(r.a) /\ r.j >= 0 /\ r.j < Rows(r.a)) \cup
-         Res(r, [r.a EXCEPT ![r.i + 1] =
-                   IF r.op = "+=" THEN VAdd(r.a[r.i + 1], r.a[r.j + 1])
-                   ELSE IF r.op = "-=" THEN VSub(r.a[r.i + 1], r.a[r.j + 1])
-                   ELSE VMul(r.a[r.i + 1], r.a[r.j + 1])])
+         Pre(IsMat(r.a) /\ r.i >= 0 /\ r.i < Rows(r.a) /\ Len(r.v) = Cols(r.a)) \cup Res(r, SetRow(r.a, r.i + 1, r.v))
+    [] f = "row_op" ->                                         \* row i (op)= b (a vector, possibly a row of the same matrix)
+         Pre(IsMat(r.a) /\ r.i >= 0 /\ r.i < Rows(r.a) /\ Len(r.b) = Cols(r.a)) \cup
+         Res(r, SetRow(r.a, r.i + 1,
+                   IF r.op = "+=" THEN VAdd(r.a[r.i + 1], r.b)
+                   ELSE IF r.op = "-=" THEN VSub(r.a[r.i + 1], r.b)
+                   ELSE VMul(r.a[r.i + 1], r.b)))
     [] f = "row_copy" ->                                       \* row i = row j of the same matrix (through a const view)
          Pre(IsMat(r.a) /\ r.i >= 0 /\ r.i < Rows(r.a) /\ r.j >= 0 /\ r.j < Rows(r.a)) \cup
-         Res(r, [r.a EXCEPT ![r.i + 1] = r.a[r.j + 1]])
+         Res(r, SetRow(r.a, r.i + 1, r.a[r.j + 1]))
+    [] f \in {"inverse", "inverse_1x1"} ->                     \* singular argument: outside the domain, nothing is required
+         Pre(IsMat(r.a) /\ Rows(r.a) = Cols(r.a)) \cup
+         (IF Det(r.a) = 0 \/ r.r \in InverseAllowed(r.a) THEN {} ELSE {"wrong-r"})
+    [] f = "adjugate_1x1" -> Pre(IsMat(r.a) /\ Rows(r.a) = 1 /\ Cols(r.a) = 1) \cup (IF r.r \in AdjAllowed(r.a) THEN {} ELSE {"wrong-r"})
     [] f = "sphere_eq" -> Res(r, r.a = r.b /\ r.ra = r.rb)
     [] f = "sphere_ne" -> Res(r, ~(r.a = r.b /\ r.ra = r.rb))
     [] f = "sphere_members" -> Diff(r, [origin |-> r.a, radius |-> r.ra])
@@ -115,8 +124,14 @@ InScope ==
    "madd", "msub", "madd_assign", "msub_assign", "mscale", "mscale_left", "mscale_assign",
    "mmul", "transpose", "determinant", "adjugate", "mvec", "dot", "cross", "length_square",
    "identity", "translation", "scaling", "row", "mat_at", "at",        \* "row/at access"
-   "structure_cast", "mstructure_cast", "narrow_cast", "push_back", "null", "fill", "init",
-   "eq", "ne", "lt", "gt", "le", "ge", "meq", "mne"}                   \* "comparison"
+   "at_set", "mat_at_set",                                             \* "row/at access", non-const: the element written is the element read
+   "structure_cast", "mstructure_cast", "narrow_cast", "push_back", "null", "fill", "init", "minit",
+   "eq", "ne", "lt", "gt", "le", "ge", "meq", "mne",                   \* "comparison"
+   \* "static and view storage types ... agree with the same operations on plain arrays": an object of
+   \* one storage type assigned / constructed from an object of the other one (the template operator=
+   \* and converting constructor of fcppt, math/detail/assign.hpp and copy.hpp) holds the same array;
+   \* this is how operands of view type are read and written (round 3: coordinator's reading)
+   "assign", "massign", "copy", "mcopy", "row_assign", "row_copy"}
 Infra == {"HARNESS-PRECONDITION", "unknown-function"}
 LinAlgReasonsScoped(r) ==
   {IF w \in Infra THEN w ELSE IF r.f \in InScope THEN w ELSE "observed-" \o w : w \in LinAlgReasons(r)}
